@@ -720,6 +720,7 @@ func hashCells(fr *frame, name string, width int, cells []value, real func([]byt
 				}
 			}
 			p.assume(Eq(Eq(o.val, h.val), same))
+			p.assume(Eq(Eq(hashTop(o.val, width), hashTop(h.val, width)), same))
 		}
 		if len(reg) < 256 {
 			p.hostState["hashes"] = append(reg, h)
@@ -746,9 +747,23 @@ func hashCells(fr *frame, name string, width int, cells []value, real func([]byt
 			}
 		}
 		p.assume(Eq(Eq(hv, o.val), same))
+		// truncated digests (addresses are 20-byte prefixes) do not collide either
+		p.assume(Eq(Eq(hashTop(hv, width), hashTop(o.val, width)), same))
 	}
 	p.hostState["hashes"] = append(reg, h)
 	return beCells(hv, width)
+}
+
+// hashTop is the leading 8 bytes of a width-byte digest.
+func hashTop(v *Term, width int) *Term {
+	if width <= 8 {
+		return v
+	}
+	d := pow2(uint(8 * (width - 8)))
+	if v.isConst() {
+		return IntConst(new(big.Int).Div(v.ival, d))
+	}
+	return TDiv(v, IntConst(d))
 }
 
 type hashObj struct {
